@@ -12,6 +12,7 @@ Helper lemmas: `Lemmas/RoutingBuild.lean`.
 import WzVerif.Lemmas.RoutingBuild
 import WzVerif.Lemmas.RoutingRedirect
 import WzVerif.Lemmas.RoutingRender3
+import WzVerif.Lemmas.RoutingMatchBuild
 namespace Wz.Props.C04
 open Wz Wz.Routing
 
@@ -185,15 +186,89 @@ example : (match bindRule {} 0 exSpecPath with
        | _, _, _ => false)
     | none => false) = true := by decide +kernel
 
--- OPEN (P1): match_build — for an InDomain, pairwise non-overlapping map and values accepted by rule r,
---   matchAdapter (readBuilt (adapterBuild endpoint vals)) = matched r vals
+/-! ### map level -/
+
+/-- **build_selects_suitable_rule.** Without host matching, the URL `MapAdapter.build` assembles is the
+one `Rule.build` gives for a rule of the map that has the requested endpoint and is `suitable_for` the
+values; its path text is what `buildSide` produces (plus the query string for unknown values). -/
+theorem build_selects_suitable_rule {cfg : MapCfg} {a : Adapter} {rules : List Rule} {ep : Str} {values : List (Str × Value)}
+    {method : Option Str} {au : Bool} (hhm : cfg.hostMatching = false) {d u : Str} {w : Bool}
+    (h : partialBuild cfg a rules ep values method au = .ok (some (d, u, w))) :
+    ∃ r ∈ rules, r.endpoint = ep ∧ (∃ mth, r.suitableFor values mth = true) ∧
+      ∃ upath, buildSide r values (traceToks r.pathToks) = .ok upath ∧ (u = upath ∨ ∃ params, u = upath ++ '?' :: params) := by
+  obtain ⟨r, hr, hep, hs, hb⟩ := partialBuild_some hhm h
+  exact ⟨r, hr, hep, hs, rule_build_path hb⟩
+
+/-- **match_build_partial.** On a map where no other rule admits the path in any way (non-overlapping
+maps: e.g. pairwise distinct literal first segments, `walkVia_none_of_first_literal`), matching the
+percent-decoded path a rule of the grammar built returns THAT rule, and the converted values are
+exactly the values the path was built from, variable by variable (`builtPairs`), with the rule's
+defaults added — `match(unquote(build(endpoint, values))) = (endpoint, values)`.
+Hypotheses: the rule has no subdomain rule (`hbind`, `hnodom`); the canonical domain of
+`rule_build_match_partial`; every variable round-trips through its converter (`VarsRoundTrip`, discharged
+per converter by `toPython_toUrl_*`); the rule is fit for the request and is not an alias under
+redirect_defaults. -/
+theorem match_build_partial {cfg : MapCfg} {specs : List RuleSpec} {m : RMap} (hm : mkMap cfg specs = some m)
+    {r : Rule} (hr : r ∈ m.rules) (hbo : r.spec.buildOnly = false) {i : Nat} {sp : RuleSpec}
+    (hbind : bindRule cfg i sp = some r)
+    (hnodom : (if cfg.hostMatching then sp.domain.getD [] else sp.domain.getD cfg.defaultSubdomain) = [])
+    (values : List (Str × Value)) {u : Str}
+    (hgram : GramToks r.pathToks)
+    (hbuild : buildSide r values (traceToks r.pathToks) = .ok u)
+    (hclosed : UrlsClosed r values r.pathToks)
+    (hdom : ∀ ts, valueTexts r values r.pathToks = some ts →
+      IsoNoSlash r.pathToks ts ∧ PathTailOK r.pathToks ts ∧ AllAccept ((tokConvs r.pathToks).map Conv.kind) ts)
+    (hrt : VarsRoundTrip r values r.pathToks)
+    {q : Req} (hok : ruleOK q r = true) (mg rd : Bool) (halias : (r.alias && rd) = false)
+    (hothers : ∀ r' ∈ m.rules, r' ≠ r → ∀ via, walkVia via r'.parts (segments [] (unquote u)) = none) :
+    matchSM m.root mg rd q [] (unquote u) = .ok r (dictUpdate (builtPairs r values r.pathToks) r.defaults) := by
+  obtain ⟨pp, pc, hparts, hparse, hconvs⟩ := bindRule_nodomain hbind hnodom
+  obtain ⟨ts, hts, hfull, _⟩ := rule_build_match_partial r values hparts hparse hgram hbuild hclosed hdom
+  have hfound := search_unique hm hr hbo hok hfull hothers
+  have hpc : pc = tokVars r.pathToks := by
+    have := parseToks_convs r.pathToks {} hparse
+    simpa [pendingConvs] using this
+  have hconv : convertValues r.convs ts = some (builtPairs r values r.pathToks) := by
+    rw [hconvs, hpc]; exact convert_built r values r.pathToks hts hrt
+  simp only [segments] at hfound
+  simp only [matchSM, hfound, finishMatch, hconv, halias, Bool.false_eq_true, if_false]
+
+-- non-vacuity: the map of `exSpec` plus a rule with another first literal; all hypotheses hold for
+-- the example values (round trip of each variable and "no other rule admits the path" included)
+example : (match mkMap {} [exSpec, { toks := [.slash, .lit "other".toList, .slash, .var (.string 1 none none) "s".toList], endpoint := "o".toList }] with
+    | some m =>
+      (match m.rules with
+       | [r, r'] =>
+         (match buildSide r exValues (traceToks r.pathToks) with
+          | .ok u =>
+            buildDomainGB r exValues && ruleOK ⟨"GET".toList, false⟩ r && !r.alias &&
+            [Via.direct, Via.trailing, Via.noslash].all (fun via => (walkVia via r'.parts (segments [] (unquote u))).isNone) &&
+            (match matchSM m.root true true ⟨"GET".toList, false⟩ [] (unquote u) with
+             | .ok r1 vals => r1.idx == 0 && vals == exValues
+             | _ => false)
+          | _ => false)
+       | _ => false)
+    | none => false) = true := by decide +kernel
+
+/-- **build_match_fixpoint_partial (rule level).** Rebuilding a rule's path from what the match of its own
+URL returns — the built values per variable plus the rule's defaults (`match_build_partial`) — gives the
+same text: `build(match(build(values))) = build(values)` for the rule that was selected. -/
+theorem build_match_fixpoint_partial (r : Rule) (values : List (Str × Value)) :
+    buildSide r (dictUpdate (builtPairs r values r.pathToks) r.defaults) (traceToks r.pathToks) =
+      buildSide r values (traceToks r.pathToks) :=
+  buildSide_congr r _ values r.pathToks (fun n hn => buildValue_matched r values r.pathToks n hn)
+
+-- OPEN (P1): match_build stated on whole URLs — matchAdapter (readBuilt (adapterBuild endpoint vals)) = matched r vals —
 -- and build_match_fixpoint — build (match (build r vals)) = build r vals.
 -- Proved here: the value-level halves (`unquote_quote` for literal text and string/path values,
 -- `toPython_toUrl_*` for every converter) and the rule-level half for every rule of the grammar
 -- (`rule_build_match_partial`: the rule's own parts admit what the rule builds, with the decoded
--- converter outputs as groups; isolating converters and one path converter). Missing: the rule-selection
--- argument at map level (`suitable_for` + `build_compare_key` pick a rule; on a non-overlapping map
--- C03.match_sound / match_priority then force the matcher to return that rule). Both laws are checked on the real code and on the model by
+-- converter outputs as groups; isolating converters and one path converter), the selection of a suitable
+-- rule by `MapAdapter.build` (`build_selects_suitable_rule`) and the map-level law on the decoded path
+-- (`match_build_partial`). Missing: the URL plumbing around the path (script root, host -> subdomain,
+-- cutting the query) which is string surgery validated by the stream, and, for the converse law at map
+-- level, that `MapAdapter.build` selects the same rule again for the matched values
+-- (`build_match_fixpoint_partial` is the law for the selected rule itself). Both laws are checked on the real code and on the model by
 -- stream `build-match` (oracle: match(unquote(build)) = (endpoint, values) and build(match(url)) = url).
 
 end Wz.Props.C04
